@@ -146,6 +146,9 @@ struct GreensFunctionPart *GreensFunctionPart_new6(struct FieldOperatorPart *Cpa
 }
 
 //@tu src/pomerol/StatesClassification.cpp
+/* twins for the other spelling of an increment (`++it` for `it++` and vice versa): same effect.  X_inc yields the iterator after the step
+ * (exact); X_postinc made from X_inc is void, so a use of its value does not compile (UNDECIDED) instead of being modelled wrongly */
+#define PartListIt_inc(it_) (PartListIt_postinc(it_), (it_))      /* pre-increment: the iterator itself, after the step */
 //@function Pomerol::BlockNumber::operator==(Pomerol::BlockNumber const&) const as BlockNumber_eq
 //@end
 //@function Pomerol::BlockNumber::operator int() const as BlockNumber_conv_int
